@@ -216,3 +216,133 @@ def fault_corpus():
         "case corpus_f4\ncfg kt=bytes n=100 sync=1\nopen\nput 6b32 5858\nput 6b 5858\nremove 6b32\nget 6b\nget 6b32\nclose\nopen\nget 6b\nget 6b32\nclose\nopen\nget 6b\nclose\nend\n",
         "case corpus_froll\ncfg kt=bytes n=1 sync=1\nopen\nput 61 01\nput 62 02\nput 61 03\nget 61\nget 62\nclose\nopen\nget 61\nget 62\nclose\nopen\nget 61\nget 62\nclose\nend\n",
     ]
+
+
+# ------------------------------------------------------------------ K1: codec lines
+def rand_bytes(rng, n):
+    return bytes(rng.randrange(256) for _ in range(n))
+
+
+def codec_lines(rng: random.Random, n: int):
+    """structured mostly-valid inputs plus a malformed stream (mutations, truncations, length
+    fields straddling the input, huge counts)"""
+    lines = []
+    def rkey():
+        r = rng.random()
+        if r < 0.15: return b""
+        if r < 0.8: return rand_bytes(rng, rng.choice([1, 2, 3, 8, 17]))
+        return rand_bytes(rng, rng.choice([100, 255, 256, 300]))
+    def rsize():
+        return rng.choice([0, 1, 255, 256, 2**32 - 1, 2**32, 2**63, 2**64 - 1, rng.randrange(2**64)])
+    def enc_put(k, h, sz):
+        return b"\x00" + struct.pack("<I", len(k)) + k + h + struct.pack("<Q", sz)
+    def enc_rm(ks):
+        return b"\x01" + struct.pack("<I", len(ks)) + b"".join(struct.pack("<I", len(k)) + k for k in ks)
+    def enc_idx(ver, es):
+        return struct.pack("<QI", ver, len(es)) + b"".join(struct.pack("<I", len(k)) + k + h + struct.pack("<Q", s) for k, h, s in es)
+    def mutate(b):
+        b = bytearray(b)
+        r = rng.random()
+        if not b: return bytes(b)
+        if r < 0.35:
+            b[rng.randrange(len(b))] ^= 1 << rng.randrange(8)
+        elif r < 0.65:
+            del b[rng.randrange(len(b)):]
+        elif r < 0.8:
+            b += rand_bytes(rng, rng.choice([1, 4, 9]))
+        else:
+            i = rng.randrange(len(b)); b[i:i + 4] = struct.pack("<I", rng.choice([0xffffffff, 0x7fffffff, len(b), len(b) + 1, 0x10000]))
+        return bytes(b)
+    for _ in range(n):
+        r = rng.random()
+        if r < 0.12:
+            k, h, sz = rkey(), rand_bytes(rng, 32), rsize()
+            lines.append((f"encop put {hexs(k)} {h.hex()} {sz}", hexs(enc_put(k, h, sz))))
+        elif r < 0.2:
+            ks = [rkey() for _ in range(rng.choice([0, 1, 2, 5, 40]))]
+            lines.append(("encop rm " + (",".join(hexs(k) for k in ks) if ks else "."), hexs(enc_rm(ks))))
+        elif r < 0.32:
+            if rng.random() < 0.5:
+                k, h, sz = rkey(), rand_bytes(rng, 32), rsize()
+                b, exp = enc_put(k, h, sz), f"ok put {hexs(k)} {h.hex()} {sz}"
+            else:
+                ks = [rkey() for _ in range(rng.choice([0, 1, 3, 9]))]
+                b, exp = enc_rm(ks), "ok rm " + (",".join(hexs(k) for k in ks) if ks else ".")
+            lines.append((f"decop {hexs(b + (rand_bytes(rng, 3) if rng.random() < 0.2 else b''))}", exp))
+        elif r < 0.5:
+            b = enc_put(rkey(), rand_bytes(rng, 32), rsize()) if rng.random() < 0.5 else enc_rm([rkey() for _ in range(rng.choice([0, 1, 3, 9]))])
+            lines.append((f"decop {hexs(mutate(b))}", None))
+        elif r < 0.55:
+            lines.append((f"decop {hexs(rand_bytes(rng, rng.choice([0, 1, 4, 5, 9, 45])))}", None))
+        elif r < 0.6:
+            # huge count, tiny input
+            hb = bytes([1]) + struct.pack('<I', rng.choice([0xffffffff, 0x80000000, 1000])) + rand_bytes(rng, rng.choice([0, 3, 4, 8]))
+            lines.append((f"decop {hexs(hb)}", None))
+        elif r < 0.66:
+            keys = sorted({rkey() for _ in range(rng.choice([0, 1, 2, 6]))})
+            es = ";".join(f"{hexs(k)}={rand_bytes(rng, 32).hex()}:{rsize()}" for k in keys)
+            lines.append((f"encidx {rng.choice([0, 1, 7, 2**64 - 1])} {es if es else '.'}", None))
+        elif r < 0.82:
+            keys = [rkey() for _ in range(rng.choice([0, 1, 2, 6]))]      # unsorted, duplicates possible
+            b = enc_idx(rng.choice([0, 1, 7, 2**64 - 1]), [(k, rand_bytes(rng, 32), rsize()) for k in keys])
+            if rng.random() < 0.6: b = mutate(b)
+            if rng.random() < 0.1: b = struct.pack("<QI", 3, rng.choice([0xffffffff, 0x80000000])) + rand_bytes(rng, 5)
+            lines.append((f"decidx {hexs(b)}", None))
+        elif r < 0.88:
+            kt = rng.choice(["string", "u8", "u16", "u32", "u64", "u128", "i8", "i32", "i64", "i128", "arr4", "bytes"])
+            if kt == "string":
+                cand = rng.choice([b"", b"abc", "é".encode(), b"\xc3", b"\xe4\xb8\xad", b"\xed\xa0\x80", b"\xf0\x9f\x98\x80", b"\xf4\x90\x80\x80", b"\xc0\x80", b"\xff", b"a\xe2\x82", rand_bytes(rng, 3)])
+            else:
+                cand = rand_bytes(rng, rng.choice([0, 1, 2, 4, 8, 16, 3]))
+            lines.append((f"keydec {kt} {hexs(cand)}", None))
+        elif r < 0.94:
+            kt, nb = rng.choice([("u8", 1), ("u16", 2), ("u32", 4), ("u64", 8), ("u128", 16), ("i8", 1), ("i16", 2), ("i32", 4), ("i64", 8), ("i128", 16), ("arr4", 4)])
+            def num():
+                q = rng.random()
+                if q < 0.3: return rand_bytes(rng, nb)
+                if q < 0.5: return bytes([0] * nb)
+                if q < 0.7: return bytes([255] * nb)
+                return bytes([0] * (nb - 1) + [rng.choice([127, 128, 1])])
+            lines.append((f"keycmp {kt} {hexs(num())} {hexs(num())}", None))
+        elif r < 0.97:
+            hx = rand_bytes(rng, 32).hex()
+            lines.append((f"path {hx}", f"{hx[0:2]}/{hx[2:4]}/{hx[4:]}"))
+        else:
+            hx = rand_bytes(rng, 32).hex()
+            comps = [hx[0:2], hx[2:4], hx[4:]]
+            q = rng.random()
+            exp = None
+            if q < 0.3: exp = "ok " + hx
+            elif q < 0.45: comps = [c.upper() for c in comps]
+            elif q < 0.6: comps = [hx[0:1], hx[1:4], hx[4:]]
+            elif q < 0.7: comps = [hx[0:2], hx[2:4], hx[4:-1]]
+            elif q < 0.8: comps = [hx[0:2], hx[2:4], hx[4:-1] + "g"]
+            elif q < 0.9: comps = ["xx"] + comps
+            else: comps = comps[1:]
+            lines.append(("unpath " + "/".join(c.encode().hex() for c in comps), exp))
+    return lines
+
+
+# ------------------------------------------------------------------ K8: range cube
+def range_cases(rng: random.Random, thorough: bool):
+    cases = []
+    small = [0, 1, 2, 5, 9] + ([17, 40] if thorough else [])
+    big = [2**32, 2**63, 2**64 - 1]
+    i = 0
+    for L in small:
+        lines = [f"case r{i}", "cfg kt=bytes n=100 sync=1", "open", f"put 6b {'G:%d:%d' % (L + 3, L) if L else '.'}", "size 6b", "reader 6b"]
+        bnds = list(range(0, L + 3)) + big
+        for a in bnds:
+            for b in bnds:
+                lines.append(f"range 6b {a} {b}")
+        lines += ["range 6e6f 0 1", "close", "end"]
+        cases.append("\n".join(lines) + "\n"); i += 1
+    for L in [8191, 8192, 8193] + ([70000] if thorough else []):
+        lines = [f"case r{i}", "cfg kt=bytes n=100 sync=1", "open", f"put 6b G:{L % 200}:{L}", "size 6b", "reader 6b"]
+        bnds = [0, 1, 8190, 8191, 8192, 8193, L - 1, L, L + 1] + big
+        for a in bnds:
+            for b in bnds:
+                lines.append(f"range 6b {a} {b}")
+        lines += ["close", "end"]
+        cases.append("\n".join(lines) + "\n"); i += 1
+    return cases
